@@ -283,26 +283,27 @@ def run_env(cfg, sid, transport, ka, latency, reject, seed):
                 vio.append((f'carries-the-encoding/{t}/env', f'{sid}={vs}: registers {dev.rf.getbytes(s.offset, nregs).hex()}, '
                                                              f'encoding {want.hex()} ({env})', vs))
             for when in (('at-once', 'after-read-back') if k is None else ('after-read-back',)):
-              if when == 'after-read-back':
-                back = r.call(inv.read_setting, sid)
-                if back[0] == 'ok' and not isinstance(v, bytes) and not (refdec.same(back[1], v) or back[1] == v) \
-                        and t not in ('Decimal', 'Voltage', 'Current', 'CurrentS'):
-                    vio.append((f'reads-back/{t}/env', f'{sid}: wrote {vs}, read back {back[1]!r} ({env})', vs))
-              if k is None:
-                  # the identical call once more (an application re-applying its configuration): the inverter's answers are
-                  # byte-for-byte those of the first call; it is again exactly one write, and it succeeds
-                  prior2 = dev.rf.getbytes(s.offset, nregs)
-                  w1 = len(dev.writes)
-                  res2 = r.call(inv.write_setting, sid, v)
-                  n += 1
-                  if res2[0] != 'ok':
-                      vio.append((f'write-succeeds/{t}/env/repeated', f'the second identical write_setting({sid!r}, {vs}) -> {res2[1:]} ({env}, {when})', vs))
-                  elif len(dev.writes) - w1 != 1:
-                      vio.append((f'exactly-one-write/{t}/env/repeated', f'{sid}={vs} written a second time: {len(dev.writes) - w1} write requests '
-                                                                         f'reached the inverter ({env}, {when})', vs))
-                  elif dev.rf.getbytes(s.offset, nregs) != refdec.encode(s, v, prior2):
-                      vio.append((f'carries-the-encoding/{t}/env/repeated', f'{sid}={vs} written a second time: registers '
-                                                                            f'{dev.rf.getbytes(s.offset, nregs).hex()} ({env}, {when})', vs))
+                if when == 'after-read-back':
+                    back = r.call(inv.read_setting, sid)
+                    if back[0] == 'ok' and not isinstance(v, bytes) and not (refdec.same(back[1], v) or back[1] == v) \
+                            and t not in ('Decimal', 'Voltage', 'Current', 'CurrentS'):
+                        vio.append((f'reads-back/{t}/env', f'{sid}: wrote {vs}, read back {back[1]!r} ({env})', vs))
+                if k is not None:
+                    continue
+                # the identical call once more (an application re-applying its configuration): the inverter's answers are
+                # byte-for-byte those of the first call; it is again exactly one write, and it succeeds
+                prior2 = dev.rf.getbytes(s.offset, nregs)
+                w1 = len(dev.writes)
+                res2 = r.call(inv.write_setting, sid, v)
+                n += 1
+                if res2[0] != 'ok':
+                    vio.append((f'write-succeeds/{t}/env/repeated', f'the second identical write_setting({sid!r}, {vs}) -> {res2[1:]} ({env}, {when})', vs))
+                elif len(dev.writes) - w1 != 1:
+                    vio.append((f'exactly-one-write/{t}/env/repeated', f'{sid}={vs} written a second time: {len(dev.writes) - w1} write requests '
+                                                                       f'reached the inverter ({env}, {when})', vs))
+                elif dev.rf.getbytes(s.offset, nregs) != refdec.encode(s, v, prior2):
+                    vio.append((f'carries-the-encoding/{t}/env/repeated', f'{sid}={vs} written a second time: registers '
+                                                                          f'{dev.rf.getbytes(s.offset, nregs).hex()} ({env}, {when})', vs))
     return n, vio
 
 
